@@ -9,9 +9,9 @@ package main
 // the implementation, at the library level in-process and through the real main() in a child process.
 
 import (
-	"encoding/base64"
 	"bytes"
 	"compress/gzip"
+	"encoding/base64"
 	"fmt"
 	"io"
 	"os"
